@@ -105,6 +105,8 @@ def run_case(case, seed):
         special += [case['par']['domain'], -case['par']['domain']]
     if fam in ('Gauss', 'PeriodicGauss'):
         special += [case['par']['mean']]
+    if fam == 'Indicator':
+        special += [case['par']['a'], case['par']['b']]          # the edges of the half-open interval [a, b)
     if fam == 'PeriodicGauss':
         special += [case['par']['mean'] + 4.0, case['par']['mean'] - 5.0, case['par']['mean'] + 7.5]      # beyond half a period / a full period away from the mean
     if fam == 'Bspline':
